@@ -131,7 +131,8 @@ def stream_trace(tid, path, desc):
          'skp': []}
     for k, p, m in skp:
         ref = dmap.get(json.dumps(k))
-        scaled = ref is not None and (p == ref / (1.0 - pm) or abs(p - ref / (1.0 - pm)) <= 1e-9 * max(p, ref / (1.0 - pm)))
+        # relative 1e-9, with an absolute floor for the denormal range where products lose all precision
+        scaled = ref is not None and (p == ref / (1.0 - pm) or abs(p - ref / (1.0 - pm)) <= 1e-9 * max(p, ref / (1.0 - pm)) + 1e-300)
         t['skp'].append({'key': k, 'r': rs[p], 'dr': rd.get(ref, 0), 'm': m, 'scaled': bool(scaled)})
     return t
 
@@ -226,7 +227,7 @@ def main(pid, tier, seed):
     rdirs = special_rulesets(work)
     for k in range(25 if tier == 'quick' else 400):
         d = os.path.join(work, 'f%d' % k)
-        desc = ptq.random_float_ruleset(rng, d)
+        desc = ptq.random_float_ruleset(rng, d, normalize_base=True)
         rdirs.append((d, {'kind': 'float_ruleset', 'base': desc['base']}))
     for d, desc in rdirs:
         stt = stream_trace(tid + 1, d, desc)
@@ -281,7 +282,11 @@ def main(pid, tier, seed):
         if v[0] == 'ACCEPT':
             continue
         m = meta[t['tid']]
-        verdict.violation(dict(m, clause=v[2]), 'clause %s; %s' % (v[2], core.short(m, 260)))
+        extra = {}
+        if t['kind'] == 'stream':
+            extra['unscaled'] = [e for e in t['skp'] if not e['scaled']][:5]
+            extra['dir'] = m.get('dir')
+        verdict.violation(dict(m, clause=v[2], **extra), 'clause %s; %s' % (v[2], core.short(m, 260)))
 
     def has_m(m):
         return any(x[0] == 'M' for x in m.get('file', m.get('base', [])))
